@@ -258,6 +258,10 @@ func (r *recorder) sink(point string, args ...any) {
 	if !keep {
 		r.release(g)
 	}
+	if point == "mt:sched-full" {
+		// between the guard's "full" and the wait for the finished token: the lost-wake-up window
+		r.delay("sched-full")
+	}
 }
 
 // h logs a harness-side observation.
@@ -1129,7 +1133,10 @@ func genScenario(r *hxlib.Run, class string) *scenario {
 	}
 	// schedule forcing
 	sc.Force = forcing{Prob: map[string]int{}, MaxUs: []int{100, 500, 2000}[rng.Intn(3)]}
-	switch rng.Intn(5) {
+	switch rng.Intn(6) {
+	case 5: // everything finishes while the scheduler is between its "full" decision and its wait
+		sc.Force.Prob["sched-full"] = 60 + rng.Intn(41)
+		sc.Force.MaxUs = 2000 + rng.Intn(3000)
 	case 0: // free running
 	case 1: // hold the scheduler between close and count: granted tasks run (and may finish) uncounted
 		sc.Force.Prob["sched-granted"] = 50 + rng.Intn(51)
@@ -1137,7 +1144,7 @@ func genScenario(r *hxlib.Run, class string) *scenario {
 		sc.Force.Prob["conclude"] = 30 + rng.Intn(71)
 		sc.Force.Prob["concluded"] = rng.Intn(60)
 	case 3: // everything a little
-		for _, p := range []string{"sched-granted", "conclude", "concluded", "pre-inc", "sched-loop"} {
+		for _, p := range []string{"sched-granted", "conclude", "concluded", "pre-inc", "sched-loop", "sched-full"} {
 			sc.Force.Prob[p] = rng.Intn(40)
 		}
 	case 4: // slow scheduler loop, fast finishers
